@@ -53,16 +53,15 @@ Theorem C15_roundtrip_partial : forall S : list (ref * root),
 Proof. exact export_import_roundtrip. Qed.
 Print Assumptions C15_roundtrip_partial.
 
-(* ---- the conclusion of the full statement under the hypothesis wf_desc: enums non-empty; split names
-   of messages / enums / real oneofs pairwise distinct (a linked set does not guarantee it: the known
-   name-collision finding); JSON names of the fields and exposed oneofs of a message distinct (protoc
-   guarantees it among fields only; this clause is inherited from the reader invariant and is not
-   needed by the round trip itself). Every successful reflection then exports, re-imports and re-exports
-   to exactly the same form, every reference resolved. [export_set] models addSchemas only: the package
-   bookkeeping of APIFromImage (splitPackageParts errors on unversioned / deep package names) is outside
-   the model (correspondence only). *)
+(* ---- the conclusion of the full statement under the hypothesis wf_keys: enums non-empty (protodesc
+   guarantees it) and the "_"-joined names of messages / enums / real oneofs pairwise distinct (a linked
+   set does NOT guarantee it: the known name-collision finding). Nothing is assumed about property or
+   JSON names. Every successful reflection then exports, re-imports and re-exports to exactly the same
+   form, every reference resolved. [export_set] models addSchemas only: the package bookkeeping of
+   APIFromImage (splitPackageParts errors on unversioned / deep package names) is outside the model
+   (correspondence only). *)
 Theorem C15_reflected_roundtrip : forall D fs S,
-  wf_desc D -> reflect D fs = Ok S ->
+  wf_keys D -> reflect D fs = Ok S ->
   exists X, export_set S = Ok X /\
   exists S', import_api X = ROk S' /\
     (forall k x, In (k, x) X -> exists r', lookup S' k = Some (Linked r') /\ export_root r' = x) /\
